@@ -889,7 +889,7 @@ func runC06(c *run.Ctx, s *kit.Summary) {
 	for i := 0; i < n; i++ {
 		hc := genCase(r)
 		if i == 0 {
-			// defect witness replayed first (DESIGN §8 #7): 11-byte body failing after 5 bytes
+			// former defect witness (DESIGN §8 #7, fixed by bc20399) replayed first as a regression guard: 11-byte body failing after 5 bytes
 			hc = &hitCase{Method: "POST", URL: "http://witness.test/", Body: []byte("abc"), MaxBody: -1, RedirSet: true, Redirects: 10, Seq: 1,
 				Final: &respSpec{Status: 200, StatusText: "200 OK", Body: []byte("hello world"), FailAfter: 5, ReadErr: "unexpected EOF"}}
 		}
